@@ -18,6 +18,7 @@ func C17(c *Ctx) {
 	r.Rule("C17-a", "read(): rn, n := utf8.DecodeRune(p.data[p.pt.offset:]) stored unchanged into p.pt.rn / p.pt.w; p.addErr(errInvalidEncoding) is guarded by exactly rn == utf8.RuneError && n == 1 and !p.allowInvalidUTF8; it is the only use of errInvalidEncoding")
 	r.Rule("C17-b", "sliceFrom returns p.data[start.offset:p.pt.offset]; p.data is never stored to")
 	r.Rule("C17-c", "every read() in the terminal matchers is dominated by not-at-EOF (see C01-e)")
+	r.Rule("C17-e", "generator side of 'classes containing U+FFFD match the invalid byte': CharClassMatcher.parse stores every rune it reads (no rune value is skipped), see C03-e")
 	r.Rule("C17-d", "p.allowInvalidUTF8 is assigned only by the AllowInvalidUTF8 option and read only in read()")
 	abs := c.allAbs()
 	r.Min("semantic variants analysed", 16, len(abs))
@@ -93,6 +94,7 @@ func C17(c *Ctx) {
 		sort.Strings(readers)
 		r.Check(strings.Join(readers, ",") == "read", "C17-d", "T.allowInvalidUTF8:readers", vn, "builder/static_code.go", "read() only", "read in ["+strings.Join(readers, ",")+"]")
 	}
+	classParserKeepsEveryRune(c, "C17-e")
 }
 
 // c01e2 is C01-e under another rule id.
